@@ -5,6 +5,7 @@ Exhaustive product I(1) u I(2) u I(3) (signature-legal: defaults form a suffix) 
 emit_default_doc; oracle = projection equality under the two documented normalisations only.
 """
 import itertools
+from copy import deepcopy
 
 from mc import alphabets as A
 from mc import formats as F
@@ -48,7 +49,33 @@ def _space(tier):
             )
 
 
+PARTIAL_KEYS = [("int", "int", "plain"), ("str", "absent", "plain"), ("Optional[str]", "none", "plain"), ("bool", "false", "plain")]
+
+
+def _partial_doc_space():
+    """partially documented interfaces: every pair (and the alternating triples) over four kinds in which one side carries no description"""
+    table = dict(A.sigma_param())
+    kinds = [(k, table[k]) for k in PARTIAL_KEYS]
+
+    def strip(p):
+        q = deepcopy(p)
+        q.pop("doc", None)
+        return q
+
+    for (ka, pa), (kb, pb) in itertools.product(kinds, repeat=2):
+        for docs in ((True, False), (False, True)):
+            ps = [pa if docs[0] else strip(pa), pb if docs[1] else strip(pb)]
+            yield dict(kinds=[list(ka), list(kb)], documented=list(docs), ret="noret", hdr="one", names=A.NAMES[:2]), A.mk_ir(list(zip(A.NAMES, ps)), None)
+    for tup in itertools.product(kinds[:3], repeat=3):
+        for docs in ((True, False, True), (False, True, False)):
+            ps = [p if d else strip(p) for (_, p), d in zip(tup, docs)]
+            yield dict(kinds=[list(k) for k, _ in tup], documented=list(docs), ret="noret", hdr="one", names=A.NAMES[:3]), A.mk_ir(list(zip(A.NAMES, ps)), None)
+
+
 def cases(tier, seed):
+    for key, ir in _partial_doc_space():
+        if A.defaults_form_suffix(ir):
+            yield dict(key=key, ir=F.ir_to_json(ir))
     for key, ir in _space(tier):
         if A.defaults_form_suffix(ir):
             yield dict(key=key, ir=F.ir_to_json(ir))
